@@ -39,6 +39,12 @@ def DSOK (σ : Sem) (g : G) (args : List Nat) (cert : Bool) (a : AccAns) : Prop 
   (a.status = false → (∃ S, σ.GExt g S ∧ ¬ HitsL args S) ∧
     (cert = true → ∃ e, a.cert = some e ∧ σ.GExt g (ofList e) ∧ ¬ HitsL args (ofList e)))
 
+/-- the arguments a query is about -/
+def Entry.argsList : Entry → List Nat
+  | .se => []
+  | .dc _ args => args
+  | .ds _ args => args
+
 /-- the answer of an entry point is what the semantics dictate -/
 def EntryOK (σ : Sem) (g : G) : Entry → Ans → Prop
   | .se, .ext res => SEOK σ g res
